@@ -10,7 +10,11 @@ use serde_json::json;
 use std::collections::BTreeSet;
 use txtpp::Mode;
 
-pub const SIGMA_CLEAN: [&str; 13] = [
+pub const SIGMA_CLEAN: [&str; 17] = [
+    "+TXTPP#temp sub/t3.out",
+    "-TXTPP#temp ./t4.out",
+    "-TXTPP#include missing.txt",
+    "TXTPP#after nl.txt",
     "x",
     "-TXTPP#write w",
     "-TXTPP#temp t.out",
@@ -321,7 +325,7 @@ pub fn run_into(rep: &Report, prop: &str) {
     let max_len = if rep.thorough() { if prop == "C07" || prop == "C10" { 5 } else { 4 } } else { 3 };
     let help = helpers_clean();
     rep.set("source_enumeration_alphabet", json!(SIGMA_CLEAN));
-    rep.set("source_enumeration_bound", json!(format!("all sources of <= {max_len} lines over the 13-line alphabet above (directive look-alikes as continuation lines of multi-line directives, temp directives naming pre-existing files)")));
+    rep.set("source_enumeration_bound", json!(format!("all sources of <= {max_len} lines over the 17-line alphabet above (directive look-alikes as continuation lines of multi-line directives, temp directives naming pre-existing files)")));
     sharded_dyn(rep, par_threads(), |_k, _n, next, rep| {
         let b = Bench::new(&help);
         let stop = || rep.over_cap();
@@ -331,7 +335,7 @@ pub fn run_into(rep: &Report, prop: &str) {
             check_source(rep, prop, &b, &help, &src);
             rep.st(1);
             rep.add("sources_enumerated", 1);
-            if seq == [1, 3] {
+            if seq == [5, 7] {
                 rep.sample(json!({"source": show(&src), "note": "the second line is text written by `write`, not a temp directive"}));
             }
         });
